@@ -166,7 +166,7 @@ func HLayoutTrivia() {
 		vObserve("rejected", site.pos, site.kind)
 		return
 	}
-	vSameDigest(vDigest(cA), vDigest(cB), "c08-trivia-changes-catalog")
+	vSameDigest(vDigestDeep(cA), vDigestDeep(cB), "c08-trivia-changes-catalog")
 	vReach("same-catalog")
 	vObserve("same", site.pos, site.kind)
 }
@@ -223,7 +223,7 @@ func HLayoutWhole() {
 		vObserve("rejected")
 		return
 	}
-	vSameDigest(vDigest(cA), vDigest(cB), "c08-rewrite-changes-catalog")
+	vSameDigest(vDigestDeep(cA), vDigestDeep(cB), "c08-rewrite-changes-catalog")
 	vReach("same-catalog")
 	vObserve("same")
 }
